@@ -70,18 +70,11 @@ def openTagLike (r : List Nat) : Bool :=
   | 60 :: c :: rest => isLetter c || (c == 47 && (match rest with | d :: _ => isLetter d | [] => false))
   | _ => false
 
-/-- The region where the unchanged code lets `Raw()` exceed `maxBuf`
-(finding `maxbuf-overshoot-markup-decl`): a comment token whose raw starts
-with `<!` (readMarkupDeclaration calls `readByte` again after
-`ErrBufferExceeded` was set in readDoctype/readCDATA). -/
-def overshootRegion (t : Tok) : Bool :=
-  t.ty == ttComment && (match t.raw with | 60 :: 33 :: _ => true | _ => false)
-
 /-- Upper bound on `len(Raw())` under `SetMaxBuf mb` (mb > 0). -/
-def rawBound (mb : Nat) (t : Tok) : Nat := if overshootRegion t then mb + 2 else mb
+def rawBound (mb : Nat) (_t : Tok) : Nat := mb
 
 /-- Upper bound on `cap(z.buf)` under `SetMaxBuf mb` (mb > 0). -/
-def capBound (mb : Nat) : Nat := max 4096 (4 * (mb + 2))
+def capBound (mb : Nat) : Nat := max 4096 (4 * mb)
 
 /-- Monitor state: the configured limit and the not-yet-covered input. -/
 structure Mon where
@@ -140,19 +133,19 @@ def growCap (c : Nat) : Nat := 2 * c
 def exceededCond (maxBuf rawStart rawEnd : Nat) : Bool :=
   decide (maxBuf > 0 ∧ rawEnd - rawStart ≥ maxBuf)
 
-/-- Counters of the tokenizer's buffer. `over` counts `readByte` calls made
-although `ErrBufferExceeded` was already set (the documented precondition
-`z.err == nil` is not respected by readMarkupDeclaration). -/
+/-- Counters of the tokenizer's buffer. `exceeded` is `z.err == ErrBufferExceeded`;
+`readByte` (ops `refill`, `advance`) is only called with `z.err == nil` — its
+documented precondition, which `maxBuf_statement_holds` (Proofs/C39) establishes
+for the exact model of `Next`. -/
 structure Buf where
   cap : Nat
   start : Nat
   stop : Nat
   len : Nat
   exceeded : Bool
-  over : Nat
 deriving Repr, DecidableEq
 
-def Buf.init : Buf := { cap := initCap, start := 0, stop := 0, len := 0, exceeded := false, over := 0 }
+def Buf.init : Buf := { cap := initCap, start := 0, stop := 0, len := 0, exceeded := false }
 
 inductive BufOp
   | refill (n : Nat)   -- buffer exhausted; compaction/growth; the reader delivers n ≥ 1 bytes
@@ -165,10 +158,10 @@ deriving Repr
 def capAfter (b : Buf) : Nat :=
   if growCond b.cap (b.stop - b.start) then growCap b.cap else b.cap
 
-/-- Is the op enabled (the Go code would not index out of range / the reader contract holds). -/
+/-- Is the op enabled (no pending error for reads, no out-of-range index, reader contract). -/
 def BufOp.enabled (b : Buf) : BufOp → Bool
-  | .refill n => decide (b.stop ≥ b.len ∧ 1 ≤ n ∧ (b.stop - b.start) + n ≤ capAfter b)
-  | .advance => decide (b.stop < b.len)
+  | .refill n => !b.exceeded && decide (b.stop ≥ b.len ∧ 1 ≤ n ∧ (b.stop - b.start) + n ≤ capAfter b)
+  | .advance => !b.exceeded && decide (b.stop < b.len)
   | .unread k => decide (b.start + k ≤ b.stop)
   | .newToken => true
 
@@ -177,9 +170,7 @@ def Buf.step (mb : Nat) (b : Buf) : BufOp → Buf
     let d := b.stop - b.start
     { b with cap := capAfter b, start := 0, stop := d, len := d + n }
   | .advance =>
-    { b with stop := b.stop + 1,
-             exceeded := b.exceeded || exceededCond mb b.start (b.stop + 1),
-             over := if b.exceeded then b.over + 1 else b.over }
+    { b with stop := b.stop + 1, exceeded := exceededCond mb b.start (b.stop + 1) }
   | .unread k => { b with stop := b.stop - k }
   | .newToken => { b with start := b.stop }
 
